@@ -15,6 +15,7 @@ import (
 	"github.com/zishang520/engine.io/v2/transports"
 	"github.com/zishang520/engine.io/v2/types"
 	"github.com/zishang520/engine.io/v2/utils"
+	"github.com/zishang520/engine.io/v2/verifhook"
 )
 
 var socket_log = log.NewLog("engine:socket")
@@ -103,6 +104,9 @@ func (s *socket) ReadyState() string {
 
 func (s *socket) SetReadyState(state string) {
 	socket_log.Debug("readyState updated from %s to %s", s.ReadyState(), state)
+	if verifhook.Enabled {
+		verifhook.Point("socket.readyState", s, s.ReadyState(), state)
+	}
 
 	s.readyState.Store(state)
 }
@@ -304,6 +308,9 @@ func (s *socket) onDrain() {
 // Upgrades socket to the given transport
 func (s *socket) MaybeUpgrade(transport transports.Transport) {
 	socket_log.Debug(`might upgrade socket transport from "%s" to "%s"`, s.Transport().Name(), transport.Name())
+	if verifhook.Enabled {
+		verifhook.Point("socket.MaybeUpgrade.enter", s, transport)
+	}
 
 	s.upgrading.Store(true)
 
@@ -348,6 +355,9 @@ func (s *socket) MaybeUpgrade(transport transports.Transport) {
 	// we force a polling cycle to ensure a fast upgrade
 	check = func() {
 		if transports.POLLING == s.Transport().Name() && s.Transport().Writable() {
+			if verifhook.Enabled {
+				verifhook.Point("socket.upgrade.check.window", s)
+			}
 			socket_log.Debug("writing a noop packet to polling for fast upgrade")
 			s.Transport().Send([]*packet.Packet{{Type: packet.NOOP}})
 		}
@@ -427,6 +437,9 @@ func (s *socket) clearTransport() {
 // `transport error`, `server close`, `transport close`
 func (s *socket) OnClose(reason string, description ...error) {
 	if s.ReadyState() != "closed" {
+		if verifhook.Enabled {
+			verifhook.Point("socket.OnClose.window", s, reason)
+		}
 		description = append(description, nil)
 
 		s.SetReadyState("closed")
@@ -548,6 +561,9 @@ func (s *socket) Close(discard bool) {
 
 	if s.ReadyState() != "open" {
 		return
+	}
+	if verifhook.Enabled {
+		verifhook.Point("socket.Close.window", s)
 	}
 
 	s.SetReadyState("closing")
